@@ -18,6 +18,7 @@ result = {builds: [{exp, pot, exc, addrs, nsel, calls: [[pool, [ok, [..]] | [fai
           eqhash_ok: bool}      UTxOs are reported as indices into `utxos` (object identity -> instance -> utxo)
 """
 from _pre import *
+import hashlib
 import builtins
 from fractions import Fraction
 import pycardano.coinselection as CS
@@ -300,7 +301,12 @@ def handler(case, payload):
                 raise ValueError(k)
     finally:
         CS.random = saved_random
-    return {'builds': builds, 'eqhash_ok': eqhash_ok}
+    # the key OrderedSet files a reference under (str(item)), per row of the table; 64 bits of its digest
+    def okey(inp):
+        return int.from_bytes(hashlib.sha256(str(inp).encode()).digest()[:8], 'big')
+    keys = [okey(TransactionInput.from_primitive([bytes.fromhex(t), i])) for t, i, _ in tab]
+    keys_inst_ok = all(okey(o.input) == keys[inst_ui[k]] for k, o in enumerate(objs))
+    return {'builds': builds, 'eqhash_ok': eqhash_ok, 'keys': keys, 'keys_inst_ok': keys_inst_ok}
 
 
 if __name__ == '__main__':
